@@ -166,12 +166,14 @@ class System:
         else:
             raise core.HarnessError('unknown op %r' % op)
 
-    def vector(self, enf):
+    def vector(self, enf, as_object=False):
+        from oslo_policy import _checks
         vec = []
         for n in PROBE_NAMES:
             for r in [None] + ROLES:
                 creds = {'roles': [r] if r else []}
-                vec.append(1 if enf.enforce(n, {}, creds) else 0)
+                rule = _checks.RuleCheck('rule', n) if as_object else n
+                vec.append(1 if enf.enforce(rule, {}, creds) else 0)
         return vec
 
     def observe(self):
@@ -180,12 +182,16 @@ class System:
         # ANOTHER enforcer of the same process, as a service may well have)
         fresh = self.make_enforcer()
         fresh_first = self.steps % 2 == 1
+        # on every third observation the decisions are asked for through a
+        # check OBJECT (`rule:<name>`) instead of by name - also the very
+        # first thing the fresh enforcer is ever asked
+        obj = self.steps % 3 == 2
         if fresh_first:
-            fresh_vec = self.vector(fresh)
-        long_vec = self.vector(self.enf)
+            fresh_vec = self.vector(fresh, obj)
+        long_vec = self.vector(self.enf, obj)
         long_rules = printed(self.enf.rules)
         if not fresh_first:
-            fresh_vec = self.vector(fresh)
+            fresh_vec = self.vector(fresh, obj)
         fresh_rules = printed(fresh.rules)
         return long_vec, long_rules, fresh_vec, fresh_rules
 
